@@ -1,7 +1,6 @@
 // C08: Solver::AmaVanka against its defining operator (dense oracle, see c08_block.hpp) on
 //  (a) SparseMatrixCSR with user-defined macros (overlapping, nested, single-dof, unsorted, singular macros with skip_singular),
-//  (b) SaddlePointMatrix<CSR,CSR,CSR> with user-defined element macros,
-//  (c) SaddlePointMatrix<BCSR<2,2>,BCSR<2,1>,BCSR<1,2>> with user-defined and with automatically deducted macros,
+//  (b) SaddlePointMatrix<BCSR<2,2>,BCSR<2,1>,BCSR<1,2>> with user-defined and with automatically deducted macros,
 // omega {1, 1/2}, num_steps {1,2}, skip_singular {off,on}, velocity unit filter {none, dof 0}; plus the life-cycle BFS.
 #include <c08_block.hpp>
 #include <kernel/solver/amavanka.hpp>
@@ -161,12 +160,12 @@ int main(int argc, char** argv)
 {
   Runtime::ScopeGuard guard(argc, argv);
   verif::Spec spec; spec.property = "C08"; spec.harness = "c08_amavanka";
-  spec.rule = "case = (matrix kind {CSR, SaddlePoint<CSR,CSR,CSR>, SaddlePoint<BCSR2>}, macro layout, user/automatic macros, diagonal variant, omega, num_steps, skip_singular, velocity unit filter); "
+  spec.rule = "case = (matrix kind {CSR, SaddlePoint<BCSR<2,2>,BCSR<2,1>,BCSR<1,2>>}, macro layout, user/automatic macros, diagonal variant, omega, num_steps, skip_singular, velocity unit filter); "
     "per case apply on all unit vectors + a dense vector vs the dense long double operator omega*diag(1/#macros)*sum P^T K_m^-1 P (see c08_block.hpp), output prefill, input unchanged, "
     "linearity, then BFS over all life-cycle histories {init_symbolic, init_numeric (also repeated without done_numeric), apply, in-place update of the A-diagonal / of all values, "
     "done_numeric, done_symbolic} replayed on fresh objects, state key = matrix values + phase + versions + 'apply since init' bits + capped init_numeric count";
   spec.bounds_quick = "7 CSR macro layouts (N 3..8; overlapping, nested, single-dof, unsorted, singular macros), 7 saddle point layouts (2-6 velocity, 1-3 pressure dofs; overlapping elements, "
-    "2 pressure dofs per element, scrambled element order) with scalar and 2x2-blocked velocity; omega {1,1/2}, num_steps {1,2}, skip_singular {off,on}, filter {none, Unit{0}}; life-cycle depth 12";
+    "2 pressure dofs per element, scrambled element order) with 2x2-blocked velocity; omega {1,1/2}, num_steps {1,2}, skip_singular {off,on}, filter {none, Unit{0}}; life-cycle depth 12";
   spec.bounds_thorough = "additionally the all-negative A-diagonal variant and all parameter combinations with skip_singular; life-cycle depth 14";
   spec.assumptions = {"oracle: dense long double algebra of c08_common.hpp/c08_block.hpp; exactly singular macros are recognised by a vanishing pivot of the exact elimination",
     "every dof belongs to at least one macro (asserted by AmaVankaCore::scale_rows); layouts violating this are not generated",
@@ -203,16 +202,14 @@ int main(int argc, char** argv)
         l.done_numeric = [b]{ b->prec->done_numeric(); }; l.done_symbolic = [b]{ b->prec->done_symbolic(); };
         l.update = [b](int v){ b->set_values(v); };
         l.apply = [b](const LVec& d, double pf, Status& st, bool& u){ return b->apply(d, pf, st, u); };
-        l.hash_state = [b](verif::Hash& h){ h.bytes(b->mat.val(), sizeof(double) * size_t(b->mat.used_elements()));
-          if(b->prec->_vanka.used_elements() > 0) h.bytes(b->prec->_vanka.val(), sizeof(double) * size_t(b->prec->_vanka.used_elements())); };
+        l.hash_state = [b](verif::Hash& h){ h.bytes(b->mat.val(), sizeof(double) * size_t(b->mat.used_elements())); };
         return l;
       };
       OracleFn orc = [=](int v, const LVec& d, LVec& out) { std::vector<std::vector<int>> ms(macros); for(auto& m : ms) std::sort(m.begin(), m.end());
         return oracle_amavanka(*K, v, ms, omega, steps, skip != 0, fixed, d, out); };
       run_subject(c, L.N, kname, where, make, orc, true, lc_depth);
     }
-    // (b) scalar saddle point, (c) blocked saddle point
-    saddle_cases<1>(c, lc_depth);
+    // (b) blocked saddle point (SaddlePointMatrix with CSR sub-blocks is not supported by AmaVanka: the class documentation lists BCSR only)
     saddle_cases<2>(c, lc_depth);
   });
 }
